@@ -134,6 +134,13 @@ def run(prog, rep):
         rep.check(good, "C15-R2", fname, f"{f.file}:{f.line}", f"{ctor}::new(canonical.transfer_from(x.as_bdd(), graph.symbolic_context()), canonical)", why)
     rep.floor("C15-R2", 3)
     lowlevel.check_primitives(prog, rep, "C15-R3")
+    # a graph is accepted exactly when it has enough copies for the formula - no more is demanded (shared with C07-R4)
+    import c07
+    sub = type(rep)("C15s")
+    c07.check_collection_and_support(prog, sub)
+    for i in sub.instances:
+        if "check_hctl_var_support" in i.key:
+            (rep.ok if i.verdict == "ok" else rep.violation if i.verdict == "violation" else rep.unresolved)("C15-R3", i.key.split(":", 1)[1], i.where, i.detail)
     f = prog.lib_fn("mc_utils::get_extended_symbolic_graph")
     if f is not None:
         rep.functions.add(f.qual)
@@ -150,4 +157,4 @@ def run(prog, rep):
             good = m[0] == "collectmap" and vs is not None and m[1] == vs and m[2] == ("lit", True) and m[3] == ("elem", vs) and m[4] == num
         rep.check(good, "C15-R3", "get_extended_symbolic_graph/uniform", f"{f.file}:{f.line}", "every network variable gets num_hctl_vars copies",
                   "the number of symbolic copies is not the same `num_hctl_vars` for every network variable")
-    rep.floor("C15-R3", 6)
+    rep.floor("C15-R3", 8)
